@@ -414,7 +414,7 @@ Proof.
   destruct (negb (ints_sorted (map fst req))); [left; reflexivity|].
   destruct (check_parts (up_parts mpu) req) as [[e|]|ps]; [left; reflexivity..|].
   cbv zeta.
-  destruct (put_object s b k (flat_map pt_body ps) (up_meta mpu)) as [s' [[e|] r]];
+  destruct (put_object s b k (flat_map pt_body ps) (carry_meta s b k (up_meta mpu))) as [s' [[e|] r]];
     [left|right]; reflexivity.
 Qed.
 
@@ -498,7 +498,9 @@ Lemma complete_ok u s b k id req u1 s1 et :
     ints_sorted (map fst req) = true /\
     Forall2 (fun r p => 0 <= fst r /\ nth_error (up_parts mpu) (Z.to_nat (fst r)) = Some (Some p)) req ps /\
     et = complete_etag md5 hex ps /\
-    (exists v sv, get_object s1 b k = OObj v sv /\ vd_body v = flat_map pt_body ps /\ vd_meta v = up_meta mpu) /\
+    (exists v sv, get_object s1 b k = OObj v sv /\ vd_body v = flat_map pt_body ps /\
+                 vd_meta v = carry_meta s b k (up_meta mpu) /\
+                 (forall kv, In kv (up_meta mpu) -> In kv (vd_meta v))) /\
     get_upload u1 b k id = None /\
     (forall b' k' id', id' <> id -> get_upload u1 b' k' id' = get_upload u b' k' id').
 Proof.
@@ -508,7 +510,7 @@ Proof.
   destruct (ints_sorted (map fst req)) eqn:Es; cbn [negb]; [|discriminate].
   destruct (check_parts (up_parts mpu) req) as [[e|]|ps] eqn:Ec; try discriminate.
   cbv zeta.
-  destruct (put_object s b k (flat_map pt_body ps) (up_meta mpu)) as [s' [[e|] r]] eqn:Ep;
+  destruct (put_object s b k (flat_map pt_body ps) (carry_meta s b k (up_meta mpu))) as [s' [[e|] r]] eqn:Ep;
     [discriminate|].
   intros H. inversion H; subst. clear H.
   exists mpu, ps. split; [reflexivity|]. split; [reflexivity|].
@@ -516,7 +518,8 @@ Proof.
   destruct (remove_upload_spec _ _ _ _ _ Hinv Eg) as [R1 R2].
   split; [|split; [exact R1|exact R2]].
   destruct (get_after_put _ _ _ _ _ _ _ Ep) as (v & sv & A & B & C & _).
-  exists v, sv. auto.
+  exists v, sv. split; [exact A|]. split; [exact B|]. split; [exact C|].
+  intros kv Hin. rewrite C. apply carry_meta_keeps. exact Hin.
 Qed.
 
 (* a rejected complete (any error not coming from the backend's PutObject) leaves the stored
@@ -533,7 +536,7 @@ Proof.
   destruct (check_parts (up_parts mpu) req) as [[e'|]|ps] eqn:Ec;
     [intros H _; inversion H; subst; auto..|].
   cbv zeta.
-  destruct (put_object s b k (flat_map pt_body ps) (up_meta mpu)) as [s' [[e'|] r]] eqn:Ep.
+  destruct (put_object s b k (flat_map pt_body ps) (carry_meta s b k (up_meta mpu))) as [s' [[e'|] r]] eqn:Ep.
   - intros H Hne. inversion H; subst. exfalso. exact (Hne e' eq_refl).
   - discriminate.
 Qed.
